@@ -198,3 +198,20 @@ package cache
 //@   ensures [all-announced C03] len(owed) == 0
 //@   ensures [input-restored C03] n.Update == old(n.Update) && n.Delete == old(n.Delete)
 //@   ensures [stored-wf] StoredWf(t)
+
+// ---- Cache: the target map is only touched under Cache.mu -------------------
+//@ monitor Cache.mu protects targets, client invariant CacheInv
+//@ pred CacheInv(c *Cache) := c.targets != nil
+
+//@ func (*Cache).HasTarget
+//@   props C14 C12
+//@   locks c
+//@   requires c != nil
+//@   ensures target == "" ==> !res0
+//@   ensures target == "*" ==> res0
+
+//@ func (*Cache).GetTarget
+//@   props C14 C12
+//@   locks c
+//@   requires c != nil
+//@   ensures res0 == c.targets[target]
